@@ -474,7 +474,18 @@ impl C20 {
         // every RIP command with meaningful (in-range) coordinates on every kind of viewport: the enumerations over the
         // digits {0,1,Z} only produce viewports glued to the top-left corner or degenerate ones. Viewports: full screen,
         // offset from the top, offset from the left, a window in the middle, the bottom-right quarter, a tiny one.
-        const VIEWPORTS: [(i64, i64, i64, i64); 6] = [(0, 0, 639, 349), (0, 100, 639, 300), (200, 0, 500, 349), (100, 100, 300, 200), (320, 175, 639, 349), (10, 200, 20, 210)];
+        const VIEWPORTS: [(i64, i64, i64, i64); 9] = [
+            (0, 0, 639, 349),
+            (0, 100, 639, 300),
+            (200, 0, 500, 349),
+            (100, 100, 300, 200),
+            (320, 175, 639, 349),
+            (10, 200, 20, 210),
+            // corners on and beyond the edge of the 640x350 screen (the viewport has to be cut to the screen)
+            (0, 0, 640, 350),
+            (0, 0, 1295, 1295),
+            (320, 175, 1295, 1295),
+        ];
         let mut r = k;
         let pat = r % 4;
         r /= 4;
@@ -497,6 +508,9 @@ impl C20 {
         rip_cmd(&mut bytes, lvl, c, params.as_bytes());
         // and a flood fill from inside the viewport afterwards (the drawing command may have drawn its border)
         rip_cmd(&mut bytes, "", b'F', format!("{}{}0F", b36((w / 2 + 1).clamp(0, 1295), 2), b36((h / 2 + 1).clamp(0, 1295), 2)).as_bytes());
+        // and fills from the viewport's own corner, which spread over the whole viewport down to its last row and column
+        rip_cmd(&mut bytes, "", b'F', b"00000A");
+        rip_cmd(&mut bytes, "", b'F', b"05050F");
         bytes.extend_from_slice(b"\n");
         StreamCase {
             emu: "rip".into(),
@@ -687,7 +701,7 @@ impl Prop for C20 {
         "C20"
     }
     fn rule(&self) -> &'static str {
-        "streams are fed character by character to the real RIPscrip (640x350 BGI canvas, file commands pointed at an empty scratch directory) and IGS (DrawExecutor) emulations under the panic monitor, the pixel work counter (budget 8*(n+2)*canvas), the virtual blocking monitor (any sleep > 0 ms raises) and, after every command terminator, an assertion that get_picture_data() returns width*height*4 bytes; pending IGS loop steps are drained through get_next_action. cases: (rip-uniform) every RIP level-0/1/9 command x parameter length 0..=24 x {all-0, all-1, all-Z} x 2 terminators; (rip-mixed) every command x every string over {0,1,Z} up to length 6; (igs-table) every IGS command x 0..=12 parameters x 7 value classes incl. negative and 2^31-1; (rip-pairs) every ordered pair of RIP commands, each with 24 parameter characters of one class {0,1,Z}: state command then drawing command; (igs-mixed) every IGS command x every parameter vector of length 0..=4 (thorough 5) over {0,1,2,3,40,9999}, of the next five lengths over {0,9999} and of length 1..=3 over the selector values {0..8,10,16,18} (text effects / sizes / rotations, marker and line types, patterns, resolutions), followed by a drawing probe (line, box, marker, text; after vectors of length <= 3 also circle, ellipse, arcs, pie slices, rounded / filled rectangle, poly line / fill, flood fill and line-to, in-canvas and far out of canvas, so that border / hollow / mode / colour state set by the first command is used); (rip-viewport) every RIP command with four patterns of in-range coordinates (inside, centre + radii / angles, edges and beyond, absolute screen coordinates) on six viewports (full, offset from the top, offset from the left, a middle window, the bottom-right quarter, tiny), fill style and colour set, followed by a flood fill from inside the viewport; (rip-selector) every RIP command with each of its first eight two-digit fields in turn at each value 0..=15, followed by a text / line / bar / circle / fill / button probe; (igs-blit) GrabScreen with its exact parameter counts for all four kinds x 16 write modes x 7 rectangle patterns x 3 resolutions; (random) seeded mixed/over-long/truncated parameter lists, continuation lines, text variables, loops with delays, chained commands on a random state prefix. distinct_nontrivial = distinct (emulation, stream head, result kinds, panicked, picture observed) fingerprints"
+        "streams are fed character by character to the real RIPscrip (640x350 BGI canvas, file commands pointed at an empty scratch directory) and IGS (DrawExecutor) emulations under the panic monitor, the pixel work counter (budget 8*(n+2)*canvas), the virtual blocking monitor (any sleep > 0 ms raises) and, after every command terminator, an assertion that get_picture_data() returns width*height*4 bytes; pending IGS loop steps are drained through get_next_action. cases: (rip-uniform) every RIP level-0/1/9 command x parameter length 0..=24 x {all-0, all-1, all-Z} x 2 terminators; (rip-mixed) every command x every string over {0,1,Z} up to length 6; (igs-table) every IGS command x 0..=12 parameters x 7 value classes incl. negative and 2^31-1; (rip-pairs) every ordered pair of RIP commands, each with 24 parameter characters of one class {0,1,Z}: state command then drawing command; (igs-mixed) every IGS command x every parameter vector of length 0..=4 (thorough 5) over {0,1,2,3,40,9999}, of the next five lengths over {0,9999} and of length 1..=3 over the selector values {0..8,10,16,18} (text effects / sizes / rotations, marker and line types, patterns, resolutions), followed by a drawing probe (line, box, marker, text; after vectors of length <= 3 also circle, ellipse, arcs, pie slices, rounded / filled rectangle, poly line / fill, flood fill and line-to, in-canvas and far out of canvas, so that border / hollow / mode / colour state set by the first command is used); (rip-viewport) every RIP command with four patterns of in-range coordinates (inside, centre + radii / angles, edges and beyond, absolute screen coordinates) on nine viewports (full, offset from the top, offset from the left, a middle window, the bottom-right quarter, tiny, one past the screen edge, far beyond it from the origin and from the middle), fill style and colour set, followed by a flood fill from inside the viewport; (rip-selector) every RIP command with each of its first eight two-digit fields in turn at each value 0..=15, followed by a text / line / bar / circle / fill / button probe; (igs-blit) GrabScreen with its exact parameter counts for all four kinds x 16 write modes x 7 rectangle patterns x 3 resolutions; (random) seeded mixed/over-long/truncated parameter lists, continuation lines, text variables, loops with delays, chained commands on a random state prefix. distinct_nontrivial = distinct (emulation, stream head, result kinds, panicked, picture observed) fingerprints"
     }
     fn meta(&self, _ctx: &Ctx) -> Value {
         json!({"floor_evaluations": 5000, "floor_distinct": 300, "watchdog_s": 60, "watchdog_is_violation": true, "plain_pass": "quick",
@@ -702,7 +716,7 @@ impl Prop for C20 {
         self.igs_mixed_len = ctx.tier.pick(4, 5);
         let l = self.igs_mixed_len;
         self.n_igs_mixed = ((0..=l).map(|i| 6u64.pow(i)).sum::<u64>() + (l + 1..=l + 5).map(|i| 2u64.pow(i)).sum::<u64>() + (1..=3u32).map(|i| 12u64.pow(i)).sum::<u64>()) * IGS_CMDS.len() as u64;
-        self.n_rip_viewport = 4 * 6 * RIP_CMDS.len() as u64;
+        self.n_rip_viewport = 4 * 9 * RIP_CMDS.len() as u64;
         self.n_igs_blit = 7 * 16 * 4 * 3;
         self.n_rip_selector = 16 * 8 * RIP_CMDS.len() as u64;
         self.n_rip_uniform + self.n_rip_mixed + self.n_igs_table + self.n_rip_pairs + self.n_igs_mixed + self.n_rip_viewport + self.n_igs_blit + self.n_rip_selector + ctx.tier.pick(30_000, 1_500_000)
